@@ -60,6 +60,7 @@ func c20Actions(args []string) error {
 		tc      typeTest
 		isRoute bool
 		twin    string // name of a result that a set_run_result action on the same node saves as well ("" = none)
+		trOnly  bool   // send_msg: quick replies that exist only in the translation of the contact's language
 	}
 	var jobs []job
 	for _, dir := range []string{"/repo/flows/actions/testdata", "/repo/flows/routers/testdata"} {
@@ -80,7 +81,10 @@ func c20Actions(args []string) error {
 			}
 			for i, tc := range tests {
 				isRoute := strings.Contains(dir, "routers")
-				jobs = append(jobs, job{fmt.Sprintf("%s#%d", strings.TrimPrefix(fn, "/repo/"), i), assetsJSON, tc, isRoute, ""})
+				jobs = append(jobs, job{fmt.Sprintf("%s#%d", strings.TrimPrefix(fn, "/repo/"), i), assetsJSON, tc, isRoute, "", false})
+				if !isRoute && strings.Contains(string(tc.Action), `"send_msg"`) && tc.Localization == nil {
+					jobs = append(jobs, job{fmt.Sprintf("%s#%d+translated-only", strings.TrimPrefix(fn, "/repo/"), i), assetsJSON, tc, isRoute, "", true})
+				}
 				// the same key saved by two sources on one node: the definition's own result and a preset with another category
 				var named struct {
 					ResultName string `json:"result_name"`
@@ -91,7 +95,7 @@ func c20Actions(args []string) error {
 					json.Unmarshal(tc.Action, &named)
 				}
 				if named.ResultName != "" {
-					jobs = append(jobs, job{fmt.Sprintf("%s#%d+preset", strings.TrimPrefix(fn, "/repo/"), i), assetsJSON, tc, isRoute, named.ResultName})
+					jobs = append(jobs, job{fmt.Sprintf("%s#%d+preset", strings.TrimPrefix(fn, "/repo/"), i), assetsJSON, tc, isRoute, named.ResultName, false})
 				}
 			}
 		}
@@ -148,6 +152,15 @@ func c20Actions(args []string) error {
 				if j.tc.Localization != nil {
 					aj = test.JSONReplace(aj, []string{"flows", fmt.Sprintf("[%d]", flowIndex), "localization"}, j.tc.Localization)
 				}
+				if j.trOnly {
+					var am map[string]any
+					json.Unmarshal(j.tc.Action, &am)
+					am["quick_replies"] = []string{}
+					au, _ := am["uuid"].(string)
+					aj = test.JSONReplace(j.assets, []string{"flows", fmt.Sprintf("[%d]", flowIndex), "nodes", "[0]", "actions"}, []byte("["+string(mustJSON(am))+"]"))
+					aj = test.JSONReplace(aj, []string{"flows", fmt.Sprintf("[%d]", flowIndex), "localization"},
+						mustJSON(M{"spa": M{au: M{"quick_replies": []string{"Si @globals.only_in_translation", "@fields.only_in_translation"}}}}))
+				}
 			}
 			sa, err := test.CreateSessionAssets(aj, "")
 			if err != nil {
@@ -163,6 +176,9 @@ func c20Actions(args []string) error {
 			}
 			var cm map[string]any
 			json.Unmarshal(cj, &cm)
+			if j.trOnly {
+				cm["language"] = "spa"
+			}
 			t := M{"flow": M{"uuid": string(flowUUID), "name": flow.Name()}, "contact": cm, "triggered_on": "2018-10-18T14:20:00Z",
 				"environment": M{"allowed_languages": []string{"eng", "spa"}, "default_country": "RW", "date_format": "YYYY-MM-DD", "time_format": "tt:mm", "timezone": "UTC"}}
 			if flow.Type() == flows.FlowTypeVoice {
